@@ -1,6 +1,7 @@
 #!/bin/bash
 # usage: tryseed.sh <patch> <prop>...   applies a seeded mutation to /repo, runs the checks, restores /repo
 patch=$1; shift
+cd /repo && [ -z "$(git status --porcelain)" ] || { echo "/repo has uncommitted changes; commit them first"; exit 2; }
 cd /repo && git apply "$patch" || { echo "patch does not apply"; exit 2; }
 for p in "$@"; do
   (cd /verif && ./check $p quick 2>&1 | grep -E "VIOLATION|UNDECIDED|quick:" | cut -c1-170)
